@@ -173,14 +173,14 @@ Print Assumptions C05_title_box.
 
 (* the file: the writer model run on the trace succeeds, and the reader model on its bytes returns the input's title
    line, count = number of lines, the k-th atom = k-th mapped atom with (resid mod 10^5, (k+1) mod 10^5) and its
-   decimals, and the box.  Hypotheses: title line t ++ "\n" with t non-empty, 9 box entries, all lines inside the
+   decimals, and the box.  Hypotheses: title line t ++ "\n" (t may be empty), 9 box entries, all lines inside the
    writer's domain of C13 (rec_ok: names of 1-5 characters, values that fit their fields, all or none with
    velocities), at least one line, fewer than 10^9 *)
 Theorem C05_file : forall (E M I F : Type) (mapmol : M -> I -> res (mapped dpay))
     (f : F) (t : bytes) (box : list bentry) (sps : list (spstate E M)) (mols : list (minst I)) blocks vel,
   preflight sps = Ok tt ->
   Forall2 (maps_to mapmol sps) (selected sps mols) blocks ->
-  t <> [] -> no_nl t -> length box = 9 ->
+  no_nl t -> length box = 9 ->
   let ls := numbered (concat blocks) 1%Z in
   ls <> [] -> Forall (rec_ok 8 vel) (map to_grec ls) -> (Z.of_nat (length ls) < 1000000000)%Z ->
   exists file, trace_file (fst (extrapolate mapmol f (t ++ [NL]) box sps mols)) = Ok file /\
@@ -210,7 +210,7 @@ Proof. exact ex_maps. Qed.
 Example C05_nonvacuous_selected : map in_resids (selected ex_sps ex_mols) = [[7; 8]; [99999]; [0; 1]]%Z.
 Proof. exact ex_selected. Qed.
 Example C05_nonvacuous_file :
-  ex_title <> [] /\ no_nl ex_title /\ length ex_box = 9 /\
+  no_nl ex_title /\ length ex_box = 9 /\
   numbered (concat ex_blocks) 1%Z <> [] /\
   Forall (rec_ok 8 false) (map to_grec (numbered (concat ex_blocks) 1%Z)) /\
   (Z.of_nat (length (numbered (concat ex_blocks) 1%Z)) < 1000000000)%Z.
@@ -220,6 +220,13 @@ Example C05_nonvacuous_trace :
       (written (fst (extrapolate ex_mapmol tt (ex_title ++ [NL]) ex_box ex_sps ex_mols)))
   = [(7, 1); (8, 2); (8, 3); (99999, 4); (0, 5); (1, 6); (1, 7)]%Z.
 Proof. exact ex_trace. Qed.
+(* an empty title line in the input is copied like any other (the defect repaired by /repo efbff8f) *)
+Example C05_nonvacuous_empty_title :
+  match trace_file (fst (extrapolate ex_mapmol tt ([] ++ [NL]) ex_box ex_sps ex_mols)) with
+  | Ok file => rmap (fun r => (r_comment r, r_natoms r, length (r_atoms r))) (read_gro file) = Ok ([NL], 7%Z, 7)
+  | Err _ => False
+  end.
+Proof. exact ex_empty_title. Qed.
 (* the session add_end 0; calc; add_end 1; extrapolate (refused, empty trace); calc; extrapolate (written) *)
 Example C05_nonvacuous_late_end :
   fst (run ex_eeq ex_build ex_mapmol (ex_title ++ [NL]) ex_box (init 2)
